@@ -16,7 +16,7 @@ LEVEL_TEXT = ("Static structural proof of necessary conditions: (R13.1) HedSchem
               "storing it; (R13.3) the duplicate-library refusal runs before any schema is loaded, the clashing-name "
               "refusal follows every merge, the duplicate-prefix refusal dominates the group table. Equivalence of "
               "prefixed and unprefixed judgement and 'standard is contained in partnered library' are NOT decided.")
-LEVEL_EXTRA = 'Added after the seeded evaluation: (R13.4) namespace prefixes removed by length, the per-entry prefix established afresh in each iteration; (R13.5) a value stored in a per-object cache of the schema classes depends only on arguments its key depends on.'
+LEVEL_EXTRA = 'Added after the seeded evaluation: (R13.4) namespace prefixes removed by length, the per-entry prefix established afresh in each iteration; (R13.5) a value stored in a per-object cache of the schema classes depends only on arguments its key depends on. (R13.6) the memoised standard schema is deep-copied before a library is merged into it.'
 
 SCHEMA_RECEIVERS = {"hed_schema", "_hed_schema", "_schema", "schema"}
 USER_PACKAGES = ("hed.validator", "hed.models", "hed.errors")
@@ -170,6 +170,35 @@ def run(ctx):
                       % (site[1], miss, norm(site[2])[:40], "/".join(miss)),
                       desc="cache self.%s keyed by everything its value depends on" % site[1])
     ctx.floor("R13.5", "memo stores in the schema classes", n_memo, 1)
+
+    # ---------------- R13.6: a partnered library is built on a *copy* of the (memoised) standard schema
+    ctx.rule("R13.6", "the memoised standard schema is deep-copied before a library is merged into it")
+    from sa.dataflow import ReachingDefs as _RD, depends_on as _dep
+    ld = prog.find_class("SchemaLoader").methods.get("_load")
+    if ld is None:
+        raise AnalysisError("anchor SchemaLoader._load vanished")
+    ctx.saw(ld)
+    rdl = _RD(ld)
+    is_cached_load = lambda y: isinstance(y, ast.Call) and call_name(y) in ("load_schema_version", "load_schema")
+    n_adopt = 0
+    for st in walk_no_nested(ld.node):
+        if isinstance(st, ast.Assign) and any(isinstance(t, ast.Attribute) and t.attr == "_schema" and isinstance(t.value, ast.Name)
+                                               and t.value.id == "self" for t in st.targets):
+            if _dep(rdl, st.value, st, is_cached_load):
+                n_adopt += 1
+                def is_deep(e, at, depth=0):
+                    if isinstance(e, ast.Call) and call_name(e) == "deepcopy":
+                        return True
+                    if isinstance(e, ast.Name) and depth < 4:
+                        ds = rdl.at(at, e.id) or []
+                        return bool(ds) and all(d.kind == "assign" and d.value is not None and is_deep(d.value, d.node, depth + 1) for d in ds)
+                    return False
+                copied = is_deep(st.value, st)
+                ctx.check(copied, "R13.6", ld.qualname, st, loc(ld, st),
+                          "the schema under construction is the object returned by load_schema_version (which is memoised) and not a "
+                          "deep copy of it: merging the library's tags into it changes the standard schema every later caller gets — an "
+                          "unprefixed annotation is then judged against standard + library", desc="standard schema deep-copied before the merge")
+    ctx.floor("R13.6", "adoptions of a loaded standard schema in SchemaLoader._load", n_adopt, 1)
 
     # ---------------- R13.3
     io = prog.find_module("schema.hed_schema_io")
